@@ -482,12 +482,9 @@ Section Types.
     | None => DFail
     end.
 
-  Definition type_decl (f : nat) (ts : list tk) : D tk tdecl :=
-    match ident ts with
-    | Some (n, r) =>
-        match next_is is_colon r with
-        | Some r1 =>
-            match skip r1 with
+  (* the specification after  name _ ':' _  *)
+  Definition type_spec (f : nat) (n : text) (p : list tk) : D tk tdecl :=
+            match p with
             | t :: r2 =>
                 if is_dk DkArray (cl t) then array_tail f n r2
                 else if is_type (cl t) then
@@ -518,7 +515,13 @@ Section Types.
                      | _ => DFail
                      end
             | [] => DFail
-            end
+            end.
+
+  Definition type_decl (f : nat) (ts : list tk) : D tk tdecl :=
+    match ident ts with
+    | Some (n, r) =>
+        match next_is is_colon r with
+        | Some r1 => type_spec f n (skip r1)
         | None => DFail
         end
     | None => DFail
